@@ -211,13 +211,14 @@ func (s *State) fresh() bool {
 // events
 
 type Event struct {
-	Kind   string   `json:"kind"`             // plan | join | leave | sub | gain | lose | delete
-	Member string   `json:"member,omitempty"` // join, leave, sub
-	Subs   []string `json:"subs,omitempty"`   // join, sub
-	Stale  string   `json:"stale,omitempty"`  // join: "" (fresh, no user data) | old | same | v0
-	Claim  string   `json:"claim,omitempty"`  // join with stale data: all | dirty | one
-	Topic  string   `json:"topic,omitempty"`  // gain, lose, delete
-	K      int      `json:"k,omitempty"`      // lose: number of trailing partitions that vanish
+	Kind    string   `json:"kind"`              // plan | join | join2 | leave | sub | gain | lose | delete
+	Member2 string   `json:"member2,omitempty"` // join2: the second joiner (its user data is one generation older than the first's)
+	Member  string   `json:"member,omitempty"`  // join, leave, sub
+	Subs    []string `json:"subs,omitempty"`    // join, sub
+	Stale   string   `json:"stale,omitempty"`   // join: "" (fresh, no user data) | old | same | v0
+	Claim   string   `json:"claim,omitempty"`   // join with stale data: all | dirty | one
+	Topic   string   `json:"topic,omitempty"`   // gain, lose, delete
+	K       int      `json:"k,omitempty"`       // lose: number of trailing partitions that vanish
 }
 
 func (e Event) Label() string {
@@ -229,6 +230,8 @@ func (e Event) Label() string {
 			return fmt.Sprintf("join(%s;%s;fresh)", e.Member, strings.Join(e.Subs, ","))
 		}
 		return fmt.Sprintf("join(%s;%s;%s/%s)", e.Member, strings.Join(e.Subs, ","), e.Stale, e.Claim)
+	case "join2":
+		return fmt.Sprintf("join2(%s,%s;%s;old+older/%s)", e.Member, e.Member2, strings.Join(e.Subs, ","), e.Claim)
 	case "leave":
 		return "leave(" + e.Member + ")"
 	case "sub":
@@ -246,6 +249,9 @@ func (e Event) Class() string {
 			return "join-fresh"
 		}
 		return "join-stale-" + e.Stale
+	}
+	if e.Kind == "join2" {
+		return "join-two-stale"
 	}
 	return e.Kind
 }
@@ -310,6 +316,26 @@ func Events(s *State, b Bounds, pool []string) []Event {
 					for _, cl := range []string{"all", "dirty", "one"} {
 						evs = append(evs, Event{Kind: "join", Member: id, Subs: ss, Stale: st, Claim: cl})
 					}
+				}
+			}
+		}
+	}
+	if !b.Light && len(s.Members)+2 <= b.MaxMembers {
+		// two members that missed one resp. two rebalances come back together: user data of three generations meet
+		var absent []string
+		for _, id := range pool {
+			present := false
+			for _, m := range s.Members {
+				present = present || m.ID == id
+			}
+			if !present {
+				absent = append(absent, id)
+			}
+		}
+		if len(absent) >= 2 {
+			for _, ss := range subs {
+				for _, cl := range []string{"one", "all"} {
+					evs = append(evs, Event{Kind: "join2", Member: absent[0], Member2: absent[1], Subs: ss, Claim: cl})
 				}
 			}
 		}
@@ -429,6 +455,24 @@ func Apply(s *State, e Event) (in *Input, ok bool) {
 			im.Data = d
 		}
 		in.Members = append(in.Members, im)
+		sort.Slice(in.Members, func(i, j int) bool { return in.Members[i].ID < in.Members[j].ID })
+	case "join2":
+		for k, id := range []string{e.Member, e.Member2} {
+			d := &UserData{Topics: map[string][]int32{}, Gen: s.Gen - 1 - k}
+			for ti, t := range e.Subs {
+				n, _ := s.topicN(t)
+				if e.Claim == "one" {
+					if ti == 0 {
+						d.Topics[t] = []int32{0}
+					}
+					continue
+				}
+				for p := 0; p < n; p++ {
+					d.Topics[t] = append(d.Topics[t], int32(p))
+				}
+			}
+			in.Members = append(in.Members, InMember{ID: id, Subs: append([]string(nil), e.Subs...), Data: d})
+		}
 		sort.Slice(in.Members, func(i, j int) bool { return in.Members[i].ID < in.Members[j].ID })
 	case "leave":
 		for i, m := range in.Members {
